@@ -102,6 +102,8 @@ pub fn opt_transform(parent_node: &Node, tag_name: &str) -> Result<Option<Transf
 }
 
 pub fn gen_string<T: Display>(tag_name: &str, value: &T) -> String {
+    // The end marker of a CDATA section must not appear inside of it, split the section there
+    let value = value.to_string().replace("]]>", "]]]]><![CDATA[>");
     format!("<{tag_name} type=\"String\"><![CDATA[{value}]]></{tag_name}>\n")
 }
 
